@@ -1,6 +1,7 @@
 import LivesimVerif.Model.ChunkParser
 import LivesimVerif.Model.Limiter
 import LivesimVerif.Model.Scte
+import LivesimVerif.Model.Subs
 import Driver.Util
 import Driver.Recv
 import Driver.Core
@@ -68,11 +69,23 @@ def opScte (args : List String) : String :=
     | .ev x => s!"ev splice={x.splice} id={x.id} dur={x.dur} pts={x.pts} brk={x.brk} adj={x.adj}"
   | _ => "bad-op"
 
+/-! ### C12: `cue <segStartMS> <segDurMS> <startTimeS> <cueDurMS>` -/
+def opCue (args : List String) : String :=
+  match args.mapM (·.toNat?) with
+  | some [segStart, segDur, startS, cueDur] =>
+    match Subs.calcCueItvls (segStart + startS * 1000) segDur cueDur with
+    | none => "PANIC divzero"
+    | some cues =>
+      -- back to the media axis: subtract 1000·startTimeS
+      "[" ++ joinWith "," (cues.map fun c => s!"({c.start - startS * 1000},{c.stop - startS * 1000},{c.utcS})") ++ "]"
+  | _ => "bad-op"
+
 def step (st : DState) (line : String) : DState × String :=
   match (line.trimAscii.toString.splitOn " ").filter (· ≠ "") with
   | "parse" :: args => (st, opParse args)
   | "lim" :: args => (st, opLim args)
   | "scte" :: args => (st, opScte args)
+  | "cue" :: args => (st, opCue args)
   | "ctr" :: args => (st, opCtr args)
   | "buf" :: args => (st, opBuf args)
   | "gen" :: args => (st, opGen args)
